@@ -250,6 +250,9 @@ def render_target(pkg, t, log, use_defs):
         a.append("no_test_output = True")
         if t.get("outs"):
             a.append("cmd = %s" % asp_str(t.get("cmd") or gen_cmd(pkg, t, log)))
+    elif t.get("cmd_configs"):
+        base = t.get("cmd") or gen_cmd(pkg, t, log)
+        a.append("cmd = {%s}" % ", ".join("%s: %s" % (asp_str(c), asp_str(base + "; : " + c)) for c in t["cmd_configs"]))
     else:
         a.append("cmd = %s" % asp_str(t.get("cmd") or gen_cmd(pkg, t, log)))
     if t.get("named_srcs"):
@@ -281,7 +284,7 @@ def render_target(pkg, t, log, use_defs):
     if t.get("optional_outs"):
         a.append("optional_outs = %s" % asp_list(t["optional_outs"]))
     a.append('visibility = ["PUBLIC"]')
-    if use_defs and fn == "genrule" and not (t.get("tools") or t.get("env") or t.get("pass_env") or t.get("hashes") or t.get("requires") or t.get("provides") or t.get("output_dirs") or t.get("optional_outs") or t.get("named_srcs")):
+    if use_defs and fn == "genrule" and not (t.get("tools") or t.get("env") or t.get("pass_env") or t.get("hashes") or t.get("requires") or t.get("provides") or t.get("output_dirs") or t.get("optional_outs") or t.get("named_srcs") or t.get("cmd_configs")):
         fn = "wgenrule"
     return "%s(\n    %s,\n)\n" % (fn, ",\n    ".join(a))
 
